@@ -18,7 +18,7 @@ RULE = (
     "ALL n! orderings of distinct sort keys x ALL 2^n failure masks x ALL windows 0<=first<=last<n x configured weight "
     "vectors {uniform, 1..n, with a zero}; ALL windows with first/last in 0..n+1 for configuration-time rejection; "
     "end-to-end: ALL 81 filter-index maps {2 objectives, 2 constraints} -> {none, filter0, filter1} x orderings x masks. "
-    "Reference: sort the successes ascending, take ranks first..last. Trivial: nothing (every case is judged); "
+    "Reference: sort the successes ascending, take ranks first..last. Plus one ensemble of n=20 (three fixed orderings, no / each single / two double failures, four windows). Trivial: nothing (every case is judged); "
     "distinct = distinct parameter tuple."
 )
 ASSUMPTIONS = [
@@ -37,6 +37,9 @@ def weight_vectors(n: int) -> dict[str, list[float]]:
     if n > 1:
         out["ramp"] = [float(i + 1) for i in range(n)]
         out["zero"] = [0.0 if i == n // 2 else float(1 + (i % 2)) for i in range(n)]
+    if 2 <= n <= 4:
+        # one weight is positive but far below machine epsilon relative to the others: still a positive weight
+        out["tiny"] = [1e-17 if i == n // 2 else 1.0 for i in range(n)]
     return out
 
 
@@ -274,6 +277,10 @@ def shards(tier: str, seed: int) -> list[dict[str, Any]]:
             for group in core.chunked(list(range(2**7)), 2):
                 out.append({"kind": "direct", "flavour": flavour, "n": 7, "masks": group, "seed": seed})
     out.append({"kind": "window", "nmax": nmax + 1, "seed": seed})
+    # beyond the exhaustively enumerated sizes: ONE larger ensemble (n = 20, above the size at which library sort
+    # routines switch strategy) with three fixed orderings, no / every single / two double failures, four windows
+    for flavour in FLAVOURS:
+        out.append({"kind": "large", "flavour": flavour, "n": 20, "seed": seed})
     for n in ((3,) if tier == "quick" else (2, 3, 4)):
         fmaps = list(itertools.product((-1, 0, 1), repeat=4))
         for group in core.chunked(fmaps, 27 if (n < 4 and tier == "quick") else 9 if n < 4 else 3):
@@ -287,10 +294,24 @@ def case_direct(flavour, n, wname, perm, mask, first, last, seed) -> dict[str, A
             "first": first, "last": last, "seed": seed}
 
 
+LARGE_PERMS = [list(range(20)), list(range(19, -1, -1)), [(7 * i + 3) % 20 for i in range(20)]]
+LARGE_WINDOWS = [(0, 9), (5, 14), (10, 19), (19, 19)]
+
+
+def large_cases(flavour: str, seed: int) -> list[dict[str, Any]]:
+    masks = [0] + [1 << i for i in range(20)] + [(1 << 0) | (1 << 19), (1 << 7) | (1 << 8)]
+    return [{"kind": "direct", "flavour": flavour, "n": 20, "weights": wname, "perm": perm, "mask": mask, "first": first, "last": last, "seed": seed}
+            for wname in ("uniform", "ramp") for perm in LARGE_PERMS for mask in masks for first, last in LARGE_WINDOWS]
+
+
 def run_shard(shard: dict[str, Any]) -> core.ShardResult:
     from ropt.plugins.realization_filter.default import DefaultRealizationFilter
 
     rec = Recorder(shard)
+    if shard["kind"] == "large":
+        for case in large_cases(shard["flavour"], shard["seed"]):
+            rec.add(("large", shard["flavour"], case["weights"], tuple(case["perm"]), case["mask"], case["first"], case["last"]), case, run_case(case))
+        return rec.finish()
     seed = shard["seed"]
     if shard["kind"] == "window":
         for n in range(1, shard["nmax"] + 1):
